@@ -53,20 +53,39 @@ Proof.
 Qed.
 Print Assumptions C10_limits.
 
-(* a failing operation: the rows of the log stay inside the limits; the
-   containers too when the operation is solve() with restore_if_fail, reload or
-   tag (a failing bare step() may leave a finite-difference perturbation x+h in
-   a container, a failing clear_log() leaves no row 0) *)
-Theorem C10_limits_failure : forall (E : env) (cf : cfg (eF E)), wfc E cf -> (c_check cf = true \/ (c_check cf = false /\ unit_laws E cf)) -> forall fuel o s e s',
+(* When the loop of Optimize.step fails (solver.step raised: LinAlgError, an
+   exception of the user's action, a limit ValueError, "penalty increased"), the
+   containers are put back on the last accepted point: they agree with solver.x on
+   every active knob ("except Exception: self.set_knobs_from_x(self.solver.x); raise"). *)
+Theorem C10_failed_step_on_accepted_point : forall (E : env) (cf : cfg (eF E)) fuel b n i s e s',
+  step_loop E cf fuel n i b s = Err e s' ->
+  exists x, sx s' = Some x /\
+            fst (write_knobs E false (va s') (c_lim cf) (x_to_knobs E cf x) (knobs s')) = knobs s'.
+Proof. intros E cf fuel b. exact (step_loop_err_on_x E cf fuel b). Qed.
+Print Assumptions C10_failed_step_on_accepted_point.
+
+(* a failing operation: the rows of the log always stay inside the limits.  The
+   containers too
+   - for unit weights after ANY failing operation (bare step(), solve() without
+     restore_if_fail included): the last accepted point is inside the limits
+     (only a failing clear_log() does not leave a good state: it leaves no row 0);
+   - for arbitrary weights (check_limits=True) after solve() with restore_if_fail,
+     reload and tag (after a failing bare step() the restored value x*w is inside
+     up to the rounding of the weight scaling). *)
+Theorem C10_limits_failure : forall (E : env) (cf : cfg (eF E)), wfc E cf ->
+  (c_check cf = true \/ (c_check cf = false /\ unit_laws E cf)) -> forall fuel o s e s',
   good E cf s -> run_op E cf fuel o s = Err e s' ->
-  Forall (row_ok E cf) (log s') /\ (restoring E cf o -> good E cf s').
+  Forall (row_ok E cf) (log s') /\
+  (restoring E cf o \/ (unit_laws E cf /\ keeps_log o) -> good E cf s').
 Proof.
   intros E cf Hc Hk fuel o s e s' Hg Ho. pose proof (run_op_good E cf Hc Hk fuel o s Hg) as P. rewrite Ho in P. exact P.
 Qed.
 Print Assumptions C10_limits_failure.
 
-(* all sequences of operations whose failures are restoring ones *)
-Theorem C10_limits_sequences_partial : forall (E : env) (cf : cfg (eF E)), wfc E cf -> (c_check cf = true \/ (c_check cf = false /\ unit_laws E cf)) -> forall s0 s,
+(* all sequences of operations; for unit weights every failing operation except
+   clear_log may occur, otherwise only the restoring ones *)
+Theorem C10_limits_sequences_partial : forall (E : env) (cf : cfg (eF E)), wfc E cf ->
+  (c_check cf = true \/ (c_check cf = false /\ unit_laws E cf)) -> forall s0 s,
   good E cf s0 -> reach_r E cf s0 s -> good E cf s.
 Proof. exact reach_good. Qed.
 Print Assumptions C10_limits_sequences_partial.
